@@ -624,10 +624,10 @@ fn mutated_frame(ext_flags: u8, opcode: u8, body: &[u8], comp: Comp) -> Arc<Vec<
     Arc::new(resp::frame(ext_flags, 1, opcode, body, comp, true))
 }
 
-fn deviation_cases(item: &Item, ext: &Ext, feat: u8, comp: Comp, pairs: u8, typed: bool, out: &mut Vec<Case>) {
+fn deviation_cases(item: &Item, ext: &Ext, feat: u8, comp: Comp, pairs: u8, typed: bool, cached: Option<Arc<Vec<u8>>>, out: &mut Vec<Case>) {
     let w = resp::encode_ext_body(ext, &item.resp, feat & FEAT_MID != 0);
     let opcode = item.resp.opcode();
-    let base = |class: &'static str, site: String, origin: String, frame: Arc<Vec<u8>>| Case { frame: FrameSrc::Bytes(frame), comp: frames::comp_code(comp), feat, opts: if typed { decode::OPT_TYPED } else { 0 }, cached: None, expect: None, class, site, origin };
+    let base = |class: &'static str, site: String, origin: String, frame: Arc<Vec<u8>>| Case { frame: FrameSrc::Bytes(frame), comp: frames::comp_code(comp), feat, opts: if typed { decode::OPT_TYPED } else { 0 }, cached: cached.clone(), expect: None, class, site, origin };
     // every truncation point of the frame as a byte stream (the connection ends early)
     let whole = mutated_frame(ext.flags(), opcode, &w.buf, comp);
     // (frames above 4 KiB: 64 evenly spaced cuts plus the first and last 64 positions instead of every position)
@@ -1030,30 +1030,34 @@ fn main() {
                 let item = &corpus_ref[i];
                 let feat = item.needs;
                 let level = if thorough { 2 } else { 1 };
-                deviation_cases(item, &exts_ref[0], feat, Comp::None, level, false, &mut cases);
+                deviation_cases(item, &exts_ref[0], feat, Comp::None, level, false, None, &mut cases);
                 cell_content_cases(item, feat, thorough, &mut cases);
+                // a no_metadata result decoded with the cached metadata of its twin: rows content is then typed
+                if let Some((twin, _)) = cached_twin(item) {
+                    deviation_cases(item, &exts_ref[0], feat, Comp::None, if thorough { 1 } else { 0 }, true, Some(twin), &mut cases);
+                }
                 // the same single deviations decoded with every other feature negotiated and typed targets on
                 if thorough {
                     for f in [FEAT_MID, FEAT_RATE, FEAT_MID | FEAT_RATE, 0x0f, FEAT_LWT | FEAT_TABLETS] {
                         if f != feat {
-                            deviation_cases(item, &exts_ref[0], f, Comp::None, 0, true, &mut cases);
+                            deviation_cases(item, &exts_ref[0], f, Comp::None, 0, true, None, &mut cases);
                         }
                     }
                 } else if i % 2 == 0 {
-                    deviation_cases(item, &exts_ref[0], 0x0f & !item.breaks_under, Comp::None, 0, true, &mut cases);
+                    deviation_cases(item, &exts_ref[0], 0x0f & !item.breaks_under, Comp::None, 0, true, None, &mut cases);
                 }
                 if thorough {
-                    deviation_cases(item, &exts_ref[7], feat, Comp::None, 0, false, &mut cases);
+                    deviation_cases(item, &exts_ref[7], feat, Comp::None, 0, false, None, &mut cases);
                 }
             }
             Unit::DevExt(i) => {
                 let item = &corpus_ref[i];
                 // extension regions and compressed carriers
                 for e in [&exts_ref[7], &exts_ref[9]] {
-                    deviation_cases(item, e, item.needs, Comp::None, if thorough { 2 } else { 1 }, false, &mut cases);
+                    deviation_cases(item, e, item.needs, Comp::None, if thorough { 2 } else { 1 }, false, None, &mut cases);
                 }
-                deviation_cases(item, &exts_ref[2], item.needs, Comp::Lz4, 0, false, &mut cases);
-                deviation_cases(item, &exts_ref[4], item.needs, Comp::Snappy, 0, false, &mut cases);
+                deviation_cases(item, &exts_ref[2], item.needs, Comp::Lz4, 0, false, None, &mut cases);
+                deviation_cases(item, &exts_ref[4], item.needs, Comp::Snappy, 0, false, None, &mut cases);
             }
             Unit::WellPairs(k) => {
                 // two-column rows over all ordered pairs of the type alphabet (slice k of 16), typed targets on
